@@ -520,11 +520,18 @@ type Contract struct {
 	Stable   []string // locations assumed not to be written by opaque callees (listed assumption)
 }
 
+type Lemma struct {
+	Name   string
+	Pkg    string
+	Clause *Clause
+}
+
 type ContractSet struct {
 	Funcs   map[string]*Contract
 	Macros  map[string]*SpecMacro // keyed by pkg-qualified and bare
 	Logic   map[string]*LogicFunc
 	Axioms  []*Clause
+	Lemmas  []*Lemma // closed formulas over package-level constants and contracts, proved once
 	Files   []string
 	Assumed map[string]bool // contract names that come from /verif/specs
 }
@@ -781,6 +788,15 @@ func (cs *ContractSet) LoadContractFile(path, pkgPath string, assumed bool) erro
 				}
 			}
 			cs.Logic[lf.Name] = lf
+		case "lemma":
+			c, err := mk("lemma", rest)
+			if err != nil {
+				return err
+			}
+			if c.Name == "" {
+				return fail(fmt.Errorf("lemma needs a [label]"))
+			}
+			cs.Lemmas = append(cs.Lemmas, &Lemma{Name: c.Name, Pkg: pkgPath, Clause: c})
 		case "axiom":
 			c, err := mk("axiom", rest)
 			if err != nil {
